@@ -126,11 +126,12 @@ func drawByz(t *rapid.T, w *sim.World, o simOpts) *sim.ByzSpec {
 	spec := &sim.ByzSpec{Strat: strat, As: as, To: to, H: h, V: v, P: p}
 	// now and then everything is signed for ANOTHER instance id (cross-chain replay), preferably for a future height (cache path)
 	foreignEvery := 12
-	if o.Focus == "C03" || o.Focus == "C08" || o.Focus == "C17" {
+	if o.Focus == "C03" || o.Focus == "C08" || o.Focus == "C17" || o.Focus == "C07" {
 		foreignEvery = 4
 	}
 	if rapid.IntRange(0, foreignEvery-1).Draw(t, "foreign-instance") == 0 {
 		spec.Inst = uint64(rapid.IntRange(1, 2).Draw(t, "instoff"))
+		spec.HdrOnly = strat == "nv" && rapid.Bool().Draw(t, "foreign-header-only")
 		if rapid.Bool().Draw(t, "foreign-future") && spec.H < w.Cfg.MaxHeight {
 			spec.H++
 			spec.V = 0
@@ -231,6 +232,24 @@ func TestC08S(t *testing.T) {
 func TestC13S(t *testing.T) {
 	o := simOpts{Focus: "C13", MaxN: 7, MaxHeight: 3, MaxSteps: 150, ByzBias: 60}
 	simProperty(t, o, func(w *sim.World) bool { return w.Mon.Facts["sync"] > 0 || w.Obs.HeightsDone >= 2 })
+}
+
+// C14 (engine S part): a sync below the node's height changes nothing - exact in single-threaded mode: no send, no callback,
+// no (height, view) change, election registration and storage untouched.
+func TestC14S(t *testing.T) {
+	o := simOpts{Focus: "C14", MaxN: 7, MaxHeight: 3, MaxSteps: 150, ByzBias: 40}
+	simProperty(t, o, func(w *sim.World) bool { return w.Mon.Facts["stale-sync"] > 0 })
+}
+
+// C20 (engine S part): whatever a correct node puts on the wire in generated cluster executions parses back to the same message,
+// and every nested signature in it (votes, prepared proofs) verifies over the re-read bytes - the node only ever nests
+// signatures of messages it had verified and stored.
+func TestC20S(t *testing.T) {
+	o := simOpts{Focus: "C20", MaxN: 7, MaxHeight: 2, MaxSteps: 150, ByzBias: 85,
+		Strategies: []string{"prepare", "prepare", "prepare", "vc", "vc", "commit", "pp", "nv", "replay", "support"}}
+	simProperty(t, o, func(w *sim.World) bool {
+		return w.Mon.Facts["c20-nested-signatures-checked"] > 0 && w.Obs.ByzStored > 0
+	})
 }
 
 // C11 thorough variant: at emission, every correct peer is cloned by replay and judged at once (see sim.cloneCheck).
